@@ -197,6 +197,8 @@ class World:
             return self.probe_memo[memo_key]
         sim.in_probe += 1
         sim.probe_gen += 1
+        saved_universe = sim.lock_universe
+        sim.lock_universe = ("probe", sim.probe_gen)
         saved_root = self.fs.root
         saved_servers = self.net.servers
         saved_fds = self.fs.fds
@@ -248,10 +250,26 @@ class World:
             self.fs.fds = saved_fds
             self.fs.open_writers = saved_writers
             self.net.servers = saved_servers
+            sim.lock_universe = saved_universe
             sim.in_probe -= 1
         sim.count("probe.cache_probes")
         self.probe_memo[memo_key] = state
         return state
+
+    def restart_process(self, why):
+        """what survives a killed process is the disk (and the servers); everything else starts afresh"""
+        sim = self.sim
+        sim.restarts += 1
+        sim.lock_universe = ("restart", sim.restarts)
+        fs = self.fs
+        for raw in list(fs.open_raws):
+            if getattr(raw.node, "flock_owner", None) is raw:
+                raw.node.flock_owner = None
+        fs.open_raws = []
+        fs.fds = {}
+        fs.open_writers = {}
+        sim.count("fault.process.crash-and-restart")
+        sim.log(f"CRASH {why}: process killed; a new process starts on what the disk holds")
 
     def record_state(self, ident, state, why):
         tl = self.timeline.setdefault(ident.key, [])
